@@ -457,7 +457,9 @@ class RenderContext:
             ctx = self.__class__(
                 template or self.template,
                 globals=ReadOnlyChainMap(namespace, self.scope),
-                disabled_tags=disabled_tags,
+                # A block scope is part of the template being rendered, so tags
+                # disabled for that template stay disabled inside the block.
+                disabled_tags=[*self.disabled_tags, *(disabled_tags or [])],
                 copy_depth=self._copy_depth + 1,
                 parent_context=self,
                 loop_iteration_carry=loop_iteration_carry,
